@@ -272,3 +272,27 @@ func VH_C14_race() {
 	vndCover("raced")
 	vndRaceCheck()
 }
+
+// VH_C14_hammer: two goroutines call Close and (Connect | Do with an ended context) on one network client. The
+// executor runs each call once and decides from its lock model whether a call can wait forever (a lock taken twice,
+// a read lock taken recursively - which hangs only when a writer arrives in between); natively the two calls are
+// repeated concurrently many times and a hang is what confirms the prediction.
+func VH_C14_hammer() {
+	mode := vndParam("mode") // 0 TCP, 1 RTU network client
+	opB := vndParam("opb")   // 1 Connect, 2 Do
+	a := vhMakeExchange(2, mode, 1, false)
+	s := &vhScript{reply: a.reply, fault: vhFaultEOF}
+	c := vhNewClient(mode, s, false)
+	dead := vhNewCtx()
+	dead.cancel()
+	vndHammer(20000, func() {
+		c.net.Close()
+	}, func() {
+		if opB == 1 {
+			c.net.Connect(c.ctx, "again")
+		} else {
+			c.net.Do(dead, a.req)
+		}
+	})
+	vndCover("hammered")
+}
